@@ -258,6 +258,57 @@ example :
   have hp : st.panicked = false := rfl
   simp [step, hcl, hp, dataTargets, hg, Elem.isTerm, cfg, Strategy.index]
 
+/-! ## RoutingEnd (`Stream::route`, route.rs) — used by C09 -/
+
+/-- **First matching route only.** If route `k` is the first whose filter accepts the item, the
+    item is enqueued to exactly one sender, the `index`-th (sorted) sender towards route `k`'s block
+    (`index = 0` for the `OnlyOne` strategy that `route()` uses), and to no sender of any other
+    route — even if later routes accept it too. `none` = index panic (`index ≥ #replicas`; the code
+    has no modulo here). -/
+theorem route_first_match_only : ∀ (gs : List (List Nat)) (accept : List Bool) (index k : Nat)
+    (g : List Nat), gs[k]? = some g → accept[k]? = some true →
+    (∀ j, j < k → accept[j]? = some false) →
+    routeData gs accept index = (g[index]?).map (fun i => [i]) := by
+  intro gs
+  induction gs with
+  | nil => intro accept index k g hg; simp at hg
+  | cons g0 gs ih =>
+    intro accept index k g hg hk hbefore
+    cases accept with
+    | nil => simp at hk
+    | cons a as =>
+      cases k with
+      | zero =>
+        simp at hg hk; subst hg hk
+        simp [routeData]
+      | succ k =>
+        have ha : a = false := by simpa using hbefore 0 (by omega)
+        subst ha
+        have := ih as index k g (by simpa using hg) (by simpa using hk)
+          (fun j hj => by simpa using hbefore (j + 1) (by omega))
+        simpa [routeData] using this
+
+/-- **Unmatched elements are dropped.** An item accepted by no route is enqueued to nobody (and
+    nothing fails). -/
+theorem route_unmatched_dropped (gs : List (List Nat)) (accept : List Bool) (index : Nat)
+    (h : ∀ a ∈ accept, a = false) : routeData gs accept index = some [] := by
+  have : (gs.zip accept).find? (·.2) = none := by
+    rw [List.find?_eq_none]
+    intro p hp
+    have := h p.2 (List.of_mem_zip hp).2
+    simp [this]
+  simp [routeData, this]
+
+/-- a live `RoutingEnd` enqueues a data element exactly to `routeData` -/
+theorem routeStep_data (accept : α → List Bool) (index : α → Nat) (st : State) (a : α)
+    (hc : st.closed = false) (hp : st.panicked = false) (ts : List Nat)
+    (h : routeData st.groups (accept a) (index a) = some ts) :
+    (routeStep accept index st (.item a)).2 = ts.map (fun i => (i, Elem.item a)) := by
+  simp [routeStep, hc, hp, h, Elem.isTerm]
+
+/-- three routes, the item is accepted by the 2nd and the 3rd: only the 2nd route's sender gets it -/
+example : routeData [[0], [1, 2], [3]] [false, true, true] 0 = some [1] := by decide
+
 /-! ## Non-vacuity -/
 
 /-- a fragile connection is not a sender; the remaining one receives the element -/
